@@ -384,7 +384,7 @@ func drive(id string, args []string) int {
 			cmd.Env = append(os.Environ(), "VH_SCRATCH="+scratch, "VH_SELF="+self)
 			cmd.Env = append(cmd.Env, e.ChildEnv...)
 			if e.Race {
-				cmd.Env = append(cmd.Env, "GORACE=halt_on_error=0 log_path="+filepath.Join(scratch, fmt.Sprintf("race-b%d", bi)))
+				cmd.Env = append(cmd.Env, "GORACE=halt_on_error=0 exitcode=0 log_path="+filepath.Join(scratch, fmt.Sprintf("race-b%d", bi)))
 			}
 			done := make(chan error, 1)
 			if err := cmd.Start(); err != nil {
@@ -509,6 +509,22 @@ func drive(id string, args []string) int {
 			fmt.Printf("  %s: %s\n", v.Sig, v.Msg)
 		}
 		rc = 1
+	}
+	if os.Getenv("VERIF_LIST_ALL") == "1" {
+		cnt := map[string]int{}
+		msg := map[string]string{}
+		for _, v := range unknown {
+			cnt[v.Sig]++
+			msg[v.Sig] = v.Msg
+		}
+		var sigs []string
+		for s := range cnt {
+			sigs = append(sigs, s)
+		}
+		sort.Strings(sigs)
+		for _, s := range sigs {
+			fmt.Printf("SIG %d %s :: %s\n", cnt[s], s, trunc(msg[s], 200))
+		}
 	}
 	keys := make([]string, 0, len(agg.Counters))
 	for k := range agg.Counters {
